@@ -475,6 +475,8 @@ def check(case):
         return check_composite(res, case)
     if kind == "version":
         return check_version(res, case)
+    if kind == "changing":
+        return check_changing(res, case)
     cfg = case.get("cfg")
     values_list = case["values"]
     modes = case["modes"]
@@ -492,6 +494,70 @@ def check(case):
     if kind == "literal-sep":
         res.label("regex-special-separator")
     res.labels = sorted(set(res.labels))
+    return res
+
+
+CHANGING_MODES = ["dict", "atvp", "composite-dict", "composite-atvp", "composite-mixed"]
+
+
+def check_changing(res, case):
+    """Lazy (callable) current values: every decision is made against the value the callable returns
+    NOW -- one matcher, the world behind the callables changes between decisions (a hook switches the
+    browser, the matcher is created before the configuration is final)."""
+    from behave.tag_matcher import ActiveTagValueProvider, CompositeActiveTagValueProvider
+    from behave.tag_matcher import BoolValueObject, NumberValueObject, ValueObject
+    tags, cfg, mode = case["tags"], case.get("cfg"), case["mode"]
+    worlds = case["values"]
+    cats = sorted(worlds[0])
+    _prefixes, _sep, ignore_unknown = norm_cfg(cfg)
+    active, _ordinary, ambiguous = parse_tags(tags, cfg)
+    if ambiguous:
+        res.label("ambiguous")
+        return res
+    cell = {"now": worlds[0]}
+    lazy = {c: (lambda c=c: build_value(cell["now"][c])) for c in cats}
+    first, second = {c: lazy[c] for c in cats[0::2]}, {c: lazy[c] for c in cats[1::2]}
+    if mode == "dict":
+        # a plain mapping is read with get(): lazy values are value objects built over a callable
+        # (documented: ValueObject(callable)); a bare callable stands for a lazy plain value
+        provider = {}
+        for c in cats:
+            d = worlds[0][c]
+            if isinstance(d, str):
+                provider[c] = (lambda c=c: cell["now"][c])
+            else:
+                cls = {"value": ValueObject, "number": NumberValueObject, "bool": BoolValueObject}[d["kind"]]
+                cur = (lambda c=c: cell["now"][c]["value"])
+                provider[c] = cls(cur) if d.get("op") is None else cls(cur, _behave_op(d["op"]))
+    elif mode == "atvp":
+        provider = ActiveTagValueProvider(dict(lazy))
+    elif mode == "composite-dict":
+        provider = CompositeActiveTagValueProvider([{}, first, second])
+    elif mode == "composite-atvp":
+        provider = CompositeActiveTagValueProvider([ActiveTagValueProvider(first), ActiveTagValueProvider(second)])
+    elif mode == "composite-mixed":
+        provider = CompositeActiveTagValueProvider([first, GetOnlyProvider({}), ActiveTagValueProvider(second)])
+    else:
+        raise ValueError(mode)
+    matcher = build_active_matcher(provider, cfg)
+    verdicts = []
+    order = case.get("order") or [0, 1, 0]
+    for k in order:
+        cell["now"] = worlds[k]
+        expected = ref_excluded(active, worlds[k], ignore_unknown)
+        excl = matcher.should_exclude_with(list(tags))
+        res.evals += 1
+        verdicts.append(expected)
+        if bool(excl) != expected:
+            res.fail("C19.lazy-value-not-current", "decision #%d: should_exclude_with=%r, the documented logic gives %r for the "
+                     "CURRENT values %r (values at the other decisions: %r); %s"
+                     % (len(verdicts), excl, expected, worlds[k], [w for w in worlds if w is not worlds[k]],
+                        _describe(tags, worlds[k], "changing:" + mode, cfg)), mode=mode)
+            break
+    res.label("changing-lazy-values", "changing:" + mode)
+    if len(set(verdicts)) > 1:
+        res.label("changing:verdict-flips")
+        res.nontrivial = True
     return res
 
 
@@ -600,6 +666,10 @@ def check_composite(res, case):
     return res
 
 
+def _shape(d):
+    return "str" if isinstance(d, str) else (d.get("kind"), d.get("op"))
+
+
 def valid_case(case):
     """Shrinking guard: reject structurally broken variants."""
     def cfg_ok(cfg):
@@ -623,6 +693,12 @@ def valid_case(case):
         return all(member_ok(m) for m in case["members"])
     if case.get("kind") == "version":
         return bool(case.get("tags")) and case.get("op") in _VERSION_OPS
+    if case.get("kind") == "changing":
+        worlds = case.get("values") or []
+        return (cfg_ok(case.get("cfg")) and len(worlds) >= 2 and all(sorted(w) == sorted(worlds[0]) for w in worlds)
+                and all(value_ok(d) for w in worlds for d in w.values()) and case.get("mode") in CHANGING_MODES
+                and all(_shape(w[c]) == _shape(worlds[0][c]) for w in worlds for c in w)
+                and all(0 <= k < len(worlds) for k in (case.get("order") or [0])))
     return cfg_ok(case.get("cfg")) and all(value_ok(d) for v in case["values"] for d in v.values())
 
 
@@ -808,6 +884,29 @@ def gen_matrix_case(rnd):
     return case
 
 
+def gen_changing_case(rnd):
+    cfg, values, tags = gen_world(rnd, p_custom=0.3)
+    other = {}
+    for c, d in values.items():
+        if isinstance(d, str):
+            pool = [d, d + "x", "other"] + [t.split("=", 1)[1] for t in tags if "=" in t and not t.endswith("=")]
+            other[c] = rnd.choice(pool)
+        else:
+            nd = dict(d)
+            nd["lazy"] = False
+            if d["kind"] == "number" and isinstance(d["value"], int):
+                nd["value"] = d["value"] + rnd.choice([-2, -1, 1, 2])
+            elif d["kind"] == "bool":
+                nd["value"] = not d["value"]
+            other[c] = nd
+    values = {c: (dict(d, lazy=False) if isinstance(d, dict) else d) for c, d in values.items()}
+    case = {"kind": "changing", "tags": tags, "values": [values, other], "mode": rnd.choice(CHANGING_MODES),
+            "order": rnd.choice([[0, 1, 0], [0, 1], [1, 0, 1], [0, 0, 1, 1, 0]])}
+    if cfg is not None:
+        case["cfg"] = cfg
+    return case
+
+
 def gen_literal_sep_case(rnd):
     _cfg, values, tags = gen_world(rnd, p_custom=0.0, dotted=False)
     sep = rnd.choice(META_SEPARATOR_POOL)
@@ -864,6 +963,7 @@ def explore(rec):
     # (c)-(e)
     rec.hyp("random-configuration", _strategy(gen_matrix_case), 60000 if quick else 1500000)
     rec.hyp("composite-matcher", _strategy(gen_composite_case), 24000 if quick else 400000)
+    rec.hyp("changing-lazy-values", _strategy(gen_changing_case), 12000 if quick else 200000)
     rec.hyp("regex-special-separator", _strategy(gen_literal_sep_case), 6000 if quick else 60000)
 
 
@@ -874,7 +974,8 @@ def required_labels(tier):
              "custom-compare", "custom-prefixes", "prefix-contains-not-but-positive", "custom-separator",
              "unknown-not-ignored", "via:subclass", "via:attr", "regex-special-separator",
              "composite-matcher", "composite-members-disagree", "composite-nested", "composite-predicate-member"]
-            + ["provider:" + m for m in MODES + ["none"]])
+            + ["provider:" + m for m in MODES + ["none"]]
+            + ["changing-lazy-values", "changing:verdict-flips"] + ["changing:" + m for m in CHANGING_MODES])
 
 
 KNOWN_PREDICATES = {}
